@@ -191,8 +191,113 @@ fn classify(m: &Model, op: &Op) -> String {
     }
 }
 
-/// Replay a history on a fresh real tracker + model; Err = discrepancy.
-fn replay(ctx: &Ctx, case: &Case) -> Result<Model, String> {
+
+// ---------------- fingerprint of the REAL tracker (used only in the de-duplication key) ----------------
+//
+// The reference-model key alone is not enough: a stale or forged pong is a no-op in the model, so `h·pong(stale)` has the model
+// key of `h` and would never be expanded — an implementation in which such a pong silently changes the tracker (drops the pending
+// ping, moves its deadline, ...) would only be observable one or two operations later, in histories that are never run. The key
+// therefore also carries the implementation's own state, read from the only view the type offers, its derived `Debug`:
+// `PingTracker { inner: Some(PingInner { data: [..8 bytes..], deadline: Instant {..}, sent_at: Instant {..} }), max_timeout: 1s,
+// last_rtt: Some(100ms) }`, canonicalised so that correct, model-equal states still coincide: instants relative to now (time left to
+// the deadline, "past" once elapsed; time since sending capped like the model's), the random payload replaced by its role (latest /
+// stale / unknown), last_rtt capped at the same cap. Never compared with the model; an unexpected `Debug` layout is a machinery error.
+
+fn fp_fail(what: &str, dbg: &str) -> ! {
+    machinery_error(&format!("C14 fingerprint: {what} in Debug output `{dbg}`"))
+}
+/// parses `Instant { tv_sec: S, tv_nsec: N }` at the start of `s`; returns (nanoseconds, bytes consumed)
+fn parse_instant(s: &str) -> Option<(i128, usize)> {
+    let a = "Instant { tv_sec: ";
+    let rest = s.strip_prefix(a)?;
+    let e1 = rest.find(", tv_nsec: ")?;
+    let sec: i128 = rest[..e1].parse().ok()?;
+    let rest2 = &rest[e1 + ", tv_nsec: ".len()..];
+    let e2 = rest2.find(" }")?;
+    let ns: i128 = rest2[..e2].parse().ok()?;
+    Some((sec * 1_000_000_000 + ns, a.len() + e1 + ", tv_nsec: ".len() + e2 + 2))
+}
+/// parses the `Debug` form of a `Duration` ("300ms", "1s", "1.5s", "0ns") into whole milliseconds
+fn parse_duration_ms(s: &str) -> Option<u64> {
+    let (num, scale_ns) = if let Some(n) = s.strip_suffix("ns") {
+        (n, 1f64)
+    } else if let Some(n) = s.strip_suffix("µs") {
+        (n, 1e3)
+    } else if let Some(n) = s.strip_suffix("ms") {
+        (n, 1e6)
+    } else if let Some(n) = s.strip_suffix('s') {
+        (n, 1e9)
+    } else {
+        return None;
+    };
+    let v: f64 = num.parse().ok()?;
+    Some((v * scale_ns / 1e6).round() as u64)
+}
+fn real_fingerprint(real: &PingTracker, data: &[[u8; 8]], m: &Model) -> String {
+    let dbg = format!("{real:?}");
+    let (now_ns, _) = parse_instant(&format!("{:?}", tokio::time::Instant::now())).unwrap_or_else(|| fp_fail("cannot parse the current Instant", &dbg));
+    let cap = m.max.max(CUSTOM_MS) as i128;
+    let mut out = String::new();
+    let mut rest: &str = &dbg;
+    let mut instants = 0;
+    loop {
+        // next token of interest
+        let cands = [("Instant { tv_sec: ", 0u8), ("data: [", 1), ("last_rtt: Some(", 2)];
+        let next = cands.iter().filter_map(|(pat, k)| rest.find(pat).map(|i| (i, *k, *pat))).min();
+        let Some((i, kind, pat)) = next else {
+            out.push_str(rest);
+            break;
+        };
+        match kind {
+            0 => {
+                out.push_str(&rest[..i]);
+                let (ns, used) = parse_instant(&rest[i..]).unwrap_or_else(|| fp_fail("cannot parse an Instant", &dbg));
+                let field = if out.ends_with("deadline: ") {
+                    let left_ms = (ns - now_ns).div_euclid(1_000_000);
+                    if ns < now_ns { "past".to_string() } else { format!("in {left_ms}ms") }
+                } else if out.ends_with("sent_at: ") {
+                    let ago_ms = (now_ns - ns).div_euclid(1_000_000);
+                    format!("{}ms ago", ago_ms.min(cap))
+                } else {
+                    fp_fail("an Instant in an unknown field", &dbg)
+                };
+                out.push_str(&field);
+                instants += 1;
+                rest = &rest[i + used..];
+            }
+            1 => {
+                out.push_str(&rest[..i + pat.len()]);
+                let body = &rest[i + pat.len()..];
+                let end = body.find(']').unwrap_or_else(|| fp_fail("unterminated payload", &dbg));
+                let bytes: Vec<u8> = body[..end].split(", ").map(|b| b.parse().unwrap_or_else(|_| fp_fail("payload byte", &dbg))).collect();
+                let role = match data.iter().position(|d| d[..] == bytes[..]) {
+                    Some(id) if m.latest.as_ref().map(|l| l.id) == Some(id) => "payload of the model's latest ping",
+                    Some(id) if id + 1 == data.len() => "payload of the newest ping (not pending in the model)",
+                    Some(_) => "payload of a stale ping",
+                    None => "payload never handed out",
+                };
+                out.push_str(role);
+                rest = &body[end..];
+            }
+            _ => {
+                out.push_str(&rest[..i + pat.len()]);
+                let body = &rest[i + pat.len()..];
+                let end = body.find(')').unwrap_or_else(|| fp_fail("unterminated last_rtt", &dbg));
+                let ms = parse_duration_ms(&body[..end]).unwrap_or_else(|| fp_fail("cannot parse last_rtt", &dbg));
+                out.push_str(&format!("{}ms", (ms as i128).min(cap)));
+                rest = &body[end..];
+            }
+        }
+    }
+    let pending = dbg.contains("inner: Some(");
+    if instants != if pending { 2 } else { 0 } || !dbg.contains("last_rtt: ") {
+        fp_fail("unexpected layout", &dbg);
+    }
+    out
+}
+
+/// Replay a history on a fresh real tracker + model; Err = discrepancy. Ok = (model state, fingerprint of the real tracker).
+fn replay(ctx: &Ctx, case: &Case) -> Result<(Model, String), String> {
     let rt = tokio::runtime::Builder::new_current_thread().enable_all().start_paused(true).build().map_err(|e| e.to_string())?;
     rt.block_on(async {
         let t0 = tokio::time::Instant::now();
@@ -292,14 +397,15 @@ fn replay(ctx: &Ctx, case: &Case) -> Result<Model, String> {
                 ctx.eval(&class, &outcome);
             }
         }
-        Ok(m)
+        let fp = real_fingerprint(&real, &data, &m);
+        Ok((m, fp))
     })
 }
 
 fn exec(ctx: &Ctx, max: u64, ops: &[Op]) -> Option<Step<String>> {
     let case = Case { max_timeout_ms: max, ops: ops.to_vec() };
     match quiet_catch(|| replay(ctx, &case)) {
-        Ok(Ok(m)) => Some(Step { key: m.key(), expand: true }),
+        Ok(Ok((m, fp))) => Some(Step { key: format!("{} || {fp}", m.key()), expand: true }),
         Ok(Err(e)) => {
             if e.starts_with("MACHINERY") {
                 machinery_error(&e);
@@ -316,7 +422,7 @@ fn exec(ctx: &Ctx, max: u64, ops: &[Op]) -> Option<Step<String>> {
 
 fn main() {
     let ctx = Ctx::from_args("C14", Level::ModelChecking);
-    ctx.set_rule("BFS over operation histories with re-execution from scratch on a paused-clock runtime, one search per max_timeout (quick {500,1000,5000} ms, thorough {500,600,1000,1500,3000,5000,10000} ms), each run until the frontier is empty (closure of the canonical state space); menu: new_ping, new_ping_with_timeout(300ms), pong(latest / newest older / oldest older / forged), advance {0.1, 0.5, 1, 5, 20} s, poll timeout() once, await timeout(); states de-duplicated by (max_timeout, time since the latest ping was sent capped at max_timeout, its timeout, current ping_timeout(), number of older pings capped at 2) — anything beyond the caps cannot change a future observation (3*rtt >= max clamps to max; an elapsed deadline stays elapsed); distinct = (op class) x outcome");
+    ctx.set_rule("BFS over operation histories with re-execution from scratch on a paused-clock runtime, one search per max_timeout (quick {500,1000,5000} ms, thorough {500,600,1000,1500,3000,5000,10000} ms), each run until the frontier is empty (closure of the canonical state space); menu: new_ping, new_ping_with_timeout(300ms), pong(latest / newest older / oldest older / forged), advance {0.1, 0.5, 1, 5, 20} s, poll timeout() once, await timeout(); states de-duplicated by (max_timeout, time since the latest ping was sent capped at max_timeout, its timeout, current ping_timeout(), number of older pings capped at 2) AND a canonical fingerprint of the real tracker's own state taken from its Debug output (pending ping: role of its payload, time left to its deadline or 'past', time since sending capped the same way; last_rtt capped the same way), so a history is merged with an earlier one only if the implementation is in the same state too — anything beyond the caps cannot change a future observation (3*rtt >= max clamps to max; an elapsed deadline stays elapsed); distinct = (op class) x outcome");
     ctx.assume("lower clamp bound = 500 ms (MIN_HEALTH_CHECK_TIMEOUT, documented constant); at exactly the deadline a poll may report either result; random ping payloads are read back, never predicted");
     let depth = 40; // the canonical state space is finite: the search runs until the frontier is empty
     ctx.bound("max_depth", depth);
